@@ -642,6 +642,9 @@ where
                     return Err(RecvError::InvalidIndex(i));
                 }
                 self.v.insert(i, v);
+                if self.v.len() > self.max_size {
+                    return Err(RecvError::MaxSizeExceeded(self.max_size));
+                }
             }
             VecEvent::Set(i, v) => {
                 if i >= self.v.len() {
@@ -665,6 +668,9 @@ where
                 self.v.fill(v);
             }
             VecEvent::Resize(l, v) => {
+                if l > self.max_size {
+                    return Err(RecvError::MaxSizeExceeded(self.max_size));
+                }
                 self.v.resize(l, v);
             }
             VecEvent::Truncate(l) => {
@@ -890,11 +896,14 @@ where
         let (dropped_tx, mut dropped_rx) = oneshot::channel();
 
         // Build initial state.
+        let initial = self.take_initial().unwrap_or_default();
+        let error = if initial.len() > max_size { Some(RecvError::MaxSizeExceeded(max_size)) } else { None };
+        let failed = error.is_some();
         let inner = Arc::new(RwLock::new(Some(MirroredVecInner {
-            v: self.take_initial().unwrap_or_default(),
+            v: initial,
             complete: self.is_complete(),
             done: self.is_complete() && self.is_done(),
-            error: None,
+            error,
             max_size,
         })));
         let inner_task = inner.clone();
@@ -903,6 +912,10 @@ where
         let tx_send = tx.clone();
         exec::spawn(
             async move {
+                if failed {
+                    return;
+                }
+
                 loop {
                     let event = tokio::select! {
                         event = self.recv() => event,
